@@ -181,6 +181,19 @@ pub fn gen(seed: u64, tier: &str) -> Vec<Value> {
         if i % 4 == 0 { st["meta"] = status_meta(&mut rng); st["class"] = json!("ordered_lists_with_metadata"); }
         out.push(st);
     }
+    // size: details far larger than any of the above (hundreds of violations / links; 7-12 KB once encoded) - nothing may be cut or dropped
+    for (k, n) in [(5usize, 260usize), (8, 300), (2, 280), (4, 200)] {
+        let strs = |i: usize| (format!("field.name.{i}"), format!("description of violation number {i}"));
+        let d: ErrorDetail = match k {
+            5 => BadRequest::new((0..n).map(|i| { let (a, b) = strs(i); FieldViolation::new(a, b) }).collect::<Vec<_>>()).into(),
+            8 => Help::new((0..n).map(|i| { let (a, b) = strs(i); HelpLink::new(a, b) }).collect::<Vec<_>>()).into(),
+            2 => QuotaFailure::new((0..n).map(|i| { let (a, b) = strs(i); QuotaViolation::new(a, b) }).collect::<Vec<_>>()).into(),
+            _ => PreconditionFailure::new((0..n).map(|i| { let (a, b) = strs(i); PreconditionViolation::new("T", a, b) }).collect::<Vec<_>>()).into(),
+        };
+        let j = to_json(&d);
+        out.push(json!({"form":"vec","class":"large_details","code":3,"msg":str_json("m"),"details":[j.clone(), rand_detail(&mut rng, 6)]}));
+        out.push(json!({"form":"set","class":"large_details","code":9,"msg":str_json("m"),"details":[j]}));
+    }
     // field sweep: for every kind, every string field empty / non-empty and every list of length 0..2; RetryInfo with no delay and
     // delays on a grid of seconds x nanos (incl. sub-second, the protobuf maximum and beyond it)
     {
